@@ -312,6 +312,40 @@ func pairPar1UTF16(w *World, r *Report) {
 			r.bad("PAIR", "par1:utf16-size:encode", w.pos(fn.Pos()), "the encoded name's buffer is not sized 2*len(utf16.Encode(...)): names with characters outside the BMP (two code units per rune) are truncated")
 		}
 	}
+	// the entry size written is the header plus the encoded name's length
+	if fn := w.Fn("par1.writeFileEntry"); fn != nil {
+		nst := 0
+		for _, rf := range region(fn) {
+			for _, b := range rf.Blocks {
+				for _, in := range b.Instrs {
+					st, ok := in.(*ssa.Store)
+					if !ok {
+						continue
+					}
+					fa, ok := st.Addr.(*ssa.FieldAddr)
+					if !ok || fieldName(fa.X.Type(), fa.Field) != "EntryBytes" {
+						continue
+					}
+					nst++
+					l := linOf(w, st.Val, 0)
+					good := false
+					for a, c := range l.coef {
+						if lc := isBuiltinCall(l.val[a], "len"); lc != nil && c == 1 && callOf(resolveSingle(lc.Call.Args[0]), "par1.encodeUTF16LEString") != nil {
+							good = true
+						}
+					}
+					if good {
+						r.ok("PAIR", "par1:utf16-size:entry-bytes", w.ipos(st), "EntryBytes = header size + len(encoded name)")
+					} else {
+						r.bad("PAIR", "par1:utf16-size:entry-bytes", w.ipos(st), "EntryBytes is not computed from the length of the encoded name: a name with characters outside the BMP (two code units per rune) makes the entry longer than it says, and every following entry is read at the wrong offset")
+					}
+				}
+			}
+		}
+		if nst == 0 {
+			r.unk("PAIR", "par1:utf16-size:entry-bytes", w.pos(fn.Pos()), "no store to EntryBytes found")
+		}
+	}
 	// both readers/writers of the entry name go through these helpers
 	for _, p := range []struct{ fn, callee string }{{"par1.writeFileEntry", "par1.encodeUTF16LEString"}, {"par1.readFileEntry", "par1.decodeUTF16LEString"}} {
 		fn := w.Fn(p.fn)
